@@ -353,6 +353,13 @@ def band (a b : Int) : Int := ((a.toNat &&& b.toNat : Nat) : Int)
 def idInt (a : Int) : Int := a
 /-- `make([]T, n)` -/
 def makeList {β : Type} [Inhabited β] (n : Int) : List β := List.replicate n.toNat default
+/-- `for i, x := range xs`: the (index, element) pairs in order -/
+def enumFrom {β : Type} (k : Int) : List β → List (Int × β)
+  | [] => []
+  | x :: xs => (k, x) :: enumFrom (k + 1) xs
+def enum {β : Type} (xs : List β) : List (Int × β) := enumFrom 0 xs
+/-- `xs[i] = v` on a slice (an index out of range panics in Go: the targets only use indices a range produced) -/
+def setAt {β : Type} (xs : List β) (i : Int) (v : β) : List β := if i < 0 then xs else xs.set i.toNat v
 /-- `copy(dst, src)` -/
 def copyInto {β : Type} (_cur dst src : List β) : List β := src.take dst.length ++ dst.drop src.length
 
